@@ -9,6 +9,8 @@ TESTS: list[tuple[str, str]] = [
     ("pv.checks.c09", "selftest"),
     ("pv.checks.c14", "selftest"),
     ("pv.checks.c18", "selftest"),
+    ("pv.checks.c12", "selftest"),
+    ("pv.ref.metafront", "selftest"),
 ]
 
 
